@@ -76,10 +76,6 @@ def shrink_candidates(inp):
         for i in range(len(p)):
             q = p[:i] + p[i + 1:]
             yield " ".join(parts[:-3] + [",".join(q) or "-", parts[-2], sched])
-    # shorten the schedule
-    core_s = sched.rstrip("!")
-    for i in range(len(core_s) - 1, -1, -1):
-        yield " ".join(parts[:-1] + [core_s[:i] + core_s[i + 1:]])
 
 
 def flow(run):
